@@ -114,8 +114,12 @@ def lemma_transparent(add):
         decode(x) == decode(y))
 
 
-UNITS = [
-    Unit('C18.load', REPO_PY, 'Repository._download_snapshot_threadsafe', setup, post, prop='C18'),
-    Lemma('C18.lemma.transparent', lemma_transparent, prop='C18'),
-]
+def units(prop):
+    return [
+        Unit(f'{prop}.load', REPO_PY, 'Repository._download_snapshot_threadsafe', setup, post, prop=prop),
+        Lemma(f'{prop}.lemma.transparent', lemma_transparent, prop=prop),
+    ]
+
+
+UNITS = units('C18')
 
